@@ -89,8 +89,8 @@ RunFail == /\ ~runRet /\ ~closing /\ runRet' = TRUE
 
 \* all obligations discharged: every Close call returned, Run returned, subscriber and publisher of
 \* every handler were closed (nh handlers), final settlements are consistent
-Quiescent(states, nh, expectSubClose) ==
+Quiescent(states, nh, np, expectSubClose) ==
     /\ pend = {} /\ runRet
-    /\ (expectSubClose => subClosed >= nh) /\ pubClosed >= nh
+    /\ (expectSubClose => subClosed >= nh) /\ pubClosed >= np
     /\ timedOut \/ Graceful(Sampled(states))
 =============================================================================
